@@ -43,8 +43,8 @@ pub fn run(rep: &mut Report, tier: &str, seed: u64) {
             let globals = crate::props::common::supply_globals(r, &case.loaded.program);
             for lazy in [false, true] {
                 let mode = if lazy { "lazy" } else { "strict" };
-                let plain = runner.check_mode(rep, case, &RunCfg { lazy, globals: globals.clone(), outer_globals: vec![], debug: None, cancel_at: None }, false, false);
-                let dbg = runner.check_mode(rep, case, &RunCfg { lazy, globals: globals.clone(), outer_globals: vec![], debug: Some((DBG.0.into(), DBG.1.into(), DBG.2.into())), cancel_at: None }, false, false);
+                let plain = runner.check_mode(rep, case, &RunCfg { lazy, globals: globals.clone(), outer_globals: vec![], debug: None, cancel_at: None }, true, false);
+                let dbg = runner.check_mode(rep, case, &RunCfg { lazy, globals: globals.clone(), outer_globals: vec![], debug: Some((DBG.0.into(), DBG.1.into(), DBG.2.into())), cancel_at: None }, true, false);
                 if plain.class == "panic" || dbg.class == "panic" {
                     continue;
                 }
